@@ -24,6 +24,27 @@ type Flow struct {
 	// Alias (NewFlowInlined only): helper parameter -> caller-side object of the identifier passed for it.
 	Alias    map[types.Object]types.Object
 	skipCall map[ast.Node]bool
+	// End is the synthetic return statement standing for falling off the end of the body (see Automaton.AtEnd).
+	End *ast.ReturnStmt
+}
+
+// fallsOffEnd reports whether b is a live block through which control leaves the body without a return statement.
+func (f *Flow) fallsOffEnd(b *cfg.Block) bool {
+	if len(b.Succs) != 0 || !b.Live {
+		return false
+	}
+	if len(b.Nodes) == 0 {
+		return true
+	}
+	switch x := b.Nodes[len(b.Nodes)-1].(type) {
+	case *ast.ReturnStmt:
+		return false
+	case *ast.ExprStmt:
+		if call, ok := unparen(x.X).(*ast.CallExpr); ok && NoReturn(f.Info, call) {
+			return false
+		}
+	}
+	return true
 }
 
 // NoReturn reports whether a call never returns (panic, os.Exit, log.Fatal*,
@@ -54,7 +75,7 @@ func NoReturn(info *types.Info, call *ast.CallExpr) bool {
 
 // NewFlow builds the CFG of body.
 func NewFlow(m *Module, info *types.Info, body *ast.BlockStmt) *Flow {
-	f := &Flow{M: m, Info: info, Body: body, switchOf: map[*ast.CaseClause]ast.Stmt{}}
+	f := &Flow{M: m, Info: info, Body: body, switchOf: map[*ast.CaseClause]ast.Stmt{}, End: &ast.ReturnStmt{Return: body.Rbrace}}
 	f.G = cfg.New(body, func(call *ast.CallExpr) bool { return !NoReturn(info, call) })
 	ast.Inspect(body, func(n ast.Node) bool {
 		switch s := n.(type) {
@@ -288,6 +309,9 @@ type Automaton struct {
 	// Block (optional) is called when a block is entered, before its nodes (loop heads and bodies are recognised by
 	// Block.Kind and Block.Stmt); a negative value kills the path.
 	Block func(state int, b *cfg.Block) int
+	// AtEnd makes Run present a synthetic, result-less *ast.ReturnStmt (Flow.End, positioned at the closing brace) to
+	// Node where control falls off the end of the body, so that rules about "every exit" see that exit too.
+	AtEnd bool
 }
 
 // StateSet is a set of automaton states (0..255).
@@ -358,6 +382,9 @@ func (f *Flow) Run(a *Automaton) map[*cfg.Block]*StateSet {
 				if cur < 0 {
 					break
 				}
+			}
+			if cur >= 0 && a.AtEnd && f.End != nil && f.fallsOffEnd(b) {
+				cur = a.Node(cur, f.End)
 			}
 			if cur >= 0 {
 				outStates = append(outStates, cur)
@@ -833,6 +860,21 @@ func TrackNil(info *types.Info, obj types.Object, a *Automaton) *Automaton {
 			}
 			return enc(inner, k), true
 		},
+		AtEnd: a.AtEnd,
+		Block: wrapBlock(a, enc),
+	}
+}
+
+func wrapBlock(a *Automaton, enc func(inner, k int) int) func(int, *cfg.Block) int {
+	if a.Block == nil {
+		return nil
+	}
+	return func(st int, b *cfg.Block) int {
+		inner := a.Block(st/3, b)
+		if inner < 0 {
+			return inner
+		}
+		return enc(inner, st%3)
 	}
 }
 
